@@ -259,6 +259,72 @@ theorem v4_cleanup_spares_renewed (s : State) (t : Nat) (macs : List Nat) (mac :
     lookup (step s (.cleanupApply t macs)).1.leases mac = some l :=
   applyList_spares t macs s mac l hl hlive
 
+def cfg290w : Cfg := { base := 0x0a000000, plen := 29, gateway := 0x0a000001, leaseTime := 290 }
+
+/-! ### DISCOVER carrying a requested address (option 50), and the expired-but-unswept window
+
+    `Msg.requested` is a field of every message, so every theorem above already quantifies over DISCOVERs that name
+    an address.  What the code does with it (nothing — handleDiscover never reads option 50) and what follows for a
+    lease whose time has run out but which the once-a-minute sweep has not removed yet: -/
+
+/-- handleDiscover never reads the requested-address option: a DISCOVER naming any address (or none) is answered
+    exactly like the same DISCOVER naming address `r`, and leaves exactly the same state. -/
+theorem v4_discover_ignores_requested (s : State) (m : Msg) (r : Option Nat) :
+    discover s { m with requested := r } = discover s m := rfl
+
+/-- A lease that is still in the table — expired or not — keeps its address to its client: whatever another client
+    sends (DISCOVER with or without option 50, REQUEST naming the address by option 50 or ciaddr), it is neither
+    OFFERed nor ACKed that address.  In particular the address of an expired, not yet swept lease cannot be obtained
+    by anybody else before the sweep (or a RELEASE / DECLINE of its client) has removed the lease. -/
+theorem v4_unswept_lease_excludes_others_partial (c : Cfg) (hN : NexusOk c) (ops : List Op)
+    (hn : noCircuitHit (init c) ops = true) (k : Nat) (l : Lease)
+    (hl : lookup (run (init c) ops).leases k = some l)
+    (m : Msg) (hk : m.mac ≠ k) (hm : circuitHit (run (init c) ops) m = false) :
+    (∀ ip lt, (discover (run (init c) ops) m).2 = .offer ip lt → ip ≠ l.ip) ∧
+    (∀ ip lt, (request (run (init c) ops) m).2 = .ack ip lt → ip ≠ l.ip) := by
+  constructor
+  · intro ip lt hoff he
+    have hI := v4_bind4_partial c hN ops hn
+    generalize run (init c) ops = s at *
+    have hI' : Bind4 (discover s m).1 := bind4_step hI (.discover m) hm
+    have hmine : Backed (discover s m).1 m.mac ip := offer_backed hI hm hoff
+    have hl' : lookup (discover s m).1.leases k = some l := by rw [discover_leases]; exact hl
+    have hhis : Backed (discover s m).1 k ip := by rw [he]; exact hI'.held _ _ hl'
+    exact hk (backing_unique hI' hmine hhis)
+  · intro ip lt hack he
+    exact (v4_ack_not_foreign_partial c hN ops hn m hm ip lt hack k (fun h => hk h.symm)).2 l hl he.symm
+
+/-- … and its own client, starting over with a DISCOVER inside that window, is offered the address it held — not
+    the address option 50 names — and nothing moves: the pool binding stays where the stale lease points, so the
+    sweep that later removes the lease frees an address nobody else was given.  (Local-pool clients; `hnx`: the
+    client is not a Nexus subscriber.) -/
+theorem v4_rediscover_in_window_keeps_binding_partial (c : Cfg) (hN : NexusOk c) (ops : List Op)
+    (hn : noCircuitHit (init c) ops = true) (m : Msg) (l : Lease)
+    (hl : lookup (run (init c) ops).leases m.mac = some l) (hloc : c.usable l.ip = true)
+    (hnx : c.nexusLookup m.mac = none) :
+    discover (run (init c) ops) m = (run (init c) ops, .offer l.ip c.leaseTime) := by
+  have hI := v4_bind4_partial c hN ops hn
+  have hcfg : (run (init c) ops).cfg = c := run_cfg _ _
+  generalize run (init c) ops = s at *
+  subst hcfg
+  have hp := held_local hI hl hloc
+  unfold discover
+  rw [existing_of_own hl, hnx, allocate_self hp]
+  simp only
+  split <;> rfl
+
+/-- The window on the model (lease 290 s, made at 0; now = 300, no sweep yet): client 1 DISCOVERs naming the free
+    address 10.0.0.3 and is offered its old 10.0.0.2; client 2's REQUEST for 10.0.0.2 is refused; after the sweep
+    client 3's REQUEST for it is acknowledged — and client 2, had it been acknowledged, would now share it. -/
+theorem window_shape :
+    let s := run (init cfg290w) [.request { mac := 1, requested := some 0x0a000002 }, .advance 300]
+    let s1 := (discover s { mac := 1, requested := some 0x0a000003 }).1
+    (discover s { mac := 1, requested := some 0x0a000003 }).2 = .offer 0x0a000002 290 ∧
+    (request s1 { mac := 2, requested := some 0x0a000002 }).2 = .nak ∧
+    (request (cleanup (request s1 { mac := 2, requested := some 0x0a000002 }).1 [])
+        { mac := 3, requested := some 0x0a000002 }).2 = .ack 0x0a000002 290 := by
+  refine ⟨by decide, by decide, by decide⟩
+
 /-! ### finding D9 (known): the circuit-id index is used as a client identity.
     Client 1 obtains 10.0.0.2 through a relay that adds circuit-id 1.  Client 2 sends a relayed REQUEST with the
     same circuit-id: it is ACKed the same address and two leases exist on it.  The clause holds on the witness. -/
@@ -405,6 +471,13 @@ example : (request (run (init cfg29) [.discover { mac := 1 }]) { mac := 1, reque
 example : lookup (run (init cfg29) [.discover { mac := 1 }, .request { mac := 1, requested := some 0x0a000002 }]).leases 1
     = some ⟨1, 0x0a000002, 300, none⟩ := by decide
 
+-- the window hypotheses are satisfiable: an expired lease in the table, a non-subscriber, another client, no circuit hit
+example : let s := run (init cfg290w) [.request { mac := 1, requested := some 0x0a000002 }, .advance 300]
+    lookup s.leases 1 = some ⟨1, 0x0a000002, 290, none⟩ ∧ ¬ s.now < 290 ∧ cfg290w.usable 0x0a000002 = true ∧
+    cfg290w.nexusLookup 1 = none ∧ circuitHit s { mac := 2, requested := some 0x0a000002 } = false ∧
+    noCircuitHit (init cfg290w) [.request { mac := 1, requested := some 0x0a000002 }, .advance 300] = true := by
+  refine ⟨by decide, by decide, by decide, by decide, by decide, by decide⟩
+
 end Bng.Spec.C02
 
 /-! ## DHCPv6 (pkg/dhcpv6 server.go with the legacy address and prefix pools)
@@ -538,5 +611,44 @@ example : (request (init c1) 1 .ok [1] []).2 =
     some { kind := .reply, nas := [(1, some 0x20010db80001000000000000000000ff)], status := some 0 } := by rfl
 example : ∃ l, lookup (run (init c1) [.request 1 .ok [1] []]).leases 1 = some l ∧
     l.addr = some 0x20010db80001000000000000000000ff := ⟨_, by rfl, by rfl⟩
+
+/-! ### review item C11: the lease is inserted before the allocation -/
+
+/-- `buildReply` puts the client's lease into the table BEFORE it allocates, and `handleRenew` takes ANY table entry
+    for a binding.  For every state in which the address pool has run dry (nothing free, nothing held by this client)
+    and the client has no lease: a RENEW is answered NoBinding (3); a REQUEST is refused (NoAddrsAvail in the IA) but
+    LEAVES AN EMPTY LEASE in the table; and the same RENEW is from then on served like a REQUEST (no NoBinding any
+    more — it will be given an address as soon as one is free).  The empty lease records no value, so it takes part
+    in no binding: uniqueness, range and renew-same above hold for every history including these
+    (`v6_bind6` is unconditional); it is a deviation from RFC 8415 18.3.4, not a double binding. -/
+theorem C11_refused_request_leaves_empty_lease (s : State) (d i : Nat) (hd : d ≠ 0) (hA : s.cfg.hasAddr = true)
+    (hdry : s.apool.avail = []) (hnone : lookup s.apool.allocated d = none) (hl : lookup s.leases d = none) :
+    (renew s d [i] []).2 = some { kind := .reply, status := some 3 } ∧
+    (request s d .ok [i] []).2 = some { kind := .reply, nas := [(i, none)], status := some 0 } ∧
+    lookup (request s d .ok [i] []).1.leases d = some {} ∧
+    (renew (request s d .ok [i] []).1 d [i] []).2 = some { kind := .reply, nas := [(i, none)], status := some 0 } := by
+  have hal : s.apool.allocate d = (s.apool, none) := by
+    unfold FPool.allocate; rw [hnone]; simp only; rw [hdry]
+  have hna : ∀ l : Lease, replyNAs s.apool d s.now s.cfg.valid l [i] = (s.apool, l, [(i, none)]) := by
+    intro l; simp [replyNAs, hal]
+  have hpd : ∀ (st : State) (l : Lease), (pdPart st d l []).2 = (l, []) ∧ (pdPart st d l []).1 = st.ppool := by
+    intro st l; unfold pdPart; split <;> simp [replyPDs]
+  refine ⟨?_, ?_, ?_, ?_⟩
+  · simp [renew, hd, hl]
+  · simp [request, hd, buildReply, naPart, hA, hna, hl, (hpd s _).1]
+  · simp [request, hd, buildReply, naPart, hA, hna, hl, (hpd s _).1]
+  · have hl' : lookup (request s d .ok [i] []).1.leases d = some {} := by
+      simp [request, hd, buildReply, naPart, hA, hna, hl, (hpd s _).1]
+    have hap : (request s d .ok [i] []).1.apool = s.apool := by
+      simp [request, hd, buildReply, naPart, hA, hna]
+    have hcf : (request s d .ok [i] []).1.cfg = s.cfg := by simp [request, hd, buildReply]
+    have hnow : (request s d .ok [i] []).1.now = s.now := by simp [request, hd, buildReply]
+    generalize (request s d .ok [i] []).1 = s' at *
+    simp [renew, hd, hl', buildReply, naPart, hcf, hA, hap, hnow, hna, (hpd _ _).1]
+
+/-- non-vacuity of the hypotheses: a one-address pool whose address another client holds -/
+example : let s := run (init c1) [.request 1 .ok [1] []]
+    s.cfg.hasAddr = true ∧ s.apool.avail = [] ∧ lookup s.apool.allocated 2 = none ∧ lookup s.leases 2 = none := by
+  decide
 
 end Bng.Spec.C02.V6
